@@ -144,6 +144,23 @@ static void gen_c03(const std::string& tier, std::vector<Case>& cases) {
             Case c; c.fund = S.fund; c.tx = S.tx; c.label = type + " hashtype=" + std::to_string(ht) + " valid"; c.klass = "valid-hashtype"; c.flags = F_STANDARD; cases.push_back(c);
         }
     }
+    // wide transactions: the spending input at positions around 127/128, 255/256 and at the end of a 300-input transaction, the spent
+    // output at positions around 255/256 and at the end of a 300-output funding transaction (an index kept in a narrow type selects
+    // another input's signature data, sequence or amount); legacy, P2SH, BIP143 and wrapped forms, hash types ALL and SINGLE|ANYONECANPAY
+    for (std::string type : {"p2pkh", "p2sh-multisig", "p2wpkh", "p2wsh-checksig", "p2sh-p2wpkh"}) {
+        std::vector<std::array<int, 4>> wide = {{300, 127, 3, 1}, {300, 128, 3, 2}, {300, 255, 3, 0}, {300, 256, 3, 1}, {300, 260, 3, 1}, {300, 299, 3, 2}, {3, 1, 300, 255}, {3, 1, 300, 256}, {3, 2, 300, 299}, {300, 257, 300, 258}};
+        if (th) for (int p : {129, 254, 258, 280}) wide.push_back({300, p, 3, 1});
+        for (auto& w : wide) for (uint8_t ht : {uint8_t(1), uint8_t(0x83)}) {
+            if (ht != 1 && !(type == "p2pkh" || type == "p2wpkh")) continue;
+            gen::Shape sh; sh.nin = w[0]; sh.pos = w[1]; sh.fund_nout = w[2]; sh.fund_vout = w[3]; sh.nout = (ht == 0x83 ? w[0] : 2); sh.amount = 100000000 + 1000 * w[3];
+            gen::Spend S = gen::make_spend(type, sh, ht, 1, false);
+            std::string base = type + " wide: " + std::to_string(w[0]) + " inputs, pos=" + std::to_string(w[1]) + ", " + std::to_string(w[2]) + " funding outputs, vout=" + std::to_string(w[3]) + " hashtype=" + std::to_string(ht);
+            for (int sel : {-1, w[1]}) { Case c; c.fund = S.fund; c.tx = S.tx; c.select = sel; c.label = base + " select=" + std::to_string(sel) + " valid"; c.klass = "valid-wide"; cases.push_back(c); }
+            if (w[0] > 256) { Case c; c.fund = S.fund; c.tx = S.tx; c.select = w[1] - 256; c.label = base + " select=" + std::to_string(w[1] - 256) + " (pos - 256: does not reference the funding transaction)"; c.klass = "wide-wrong-selection"; cases.push_back(c); }
+            // the sequence of the input 256 places before differs: a legacy / BIP143 SIGHASH_ALL signature commits to it, so altering it after signing invalidates the spend
+            if (ht == 1 && w[1] >= 256) { Case c; c.fund = S.fund; c.tx = S.tx; c.tx.vin[w[1] - 256].sequence ^= 1; c.label = base + " sequence of input pos-256 altered after signing"; c.klass = "wide-other-sequence-altered"; cases.push_back(c); }
+        }
+    }
     // witness scripts, tapscript leaves and control blocks larger than one stack element (520 bytes): the element size limit
     // applies to the initial stack only (BIP141 / BIP342), never to the script or the control block
     for (std::string type : {"p2wsh-checksig", "p2tr-script"}) {
